@@ -5,6 +5,7 @@
 package interp
 
 import (
+	"sync"
 	"bytes"
 	"fmt"
 	"go/constant"
@@ -988,23 +989,29 @@ func (i *interpreter) unop(instr *ssa.UnOp, x value) value {
 func typeAssert(i *interpreter, instr *ssa.TypeAssert, itf iface) value {
 	var v value
 	err := ""
+	failed := false
 	if itf.t == nil {
-		err = fmt.Sprintf("interface conversion: interface is nil, not %s", instr.AssertedType)
-
+		failed = true
+		if !instr.CommaOk {
+			err = fmt.Sprintf("interface conversion: interface is nil, not %s", instr.AssertedType)
+		}
 	} else if idst, ok := instr.AssertedType.Underlying().(*types.Interface); ok {
 		v = itf
-		err = checkInterface(i, idst, itf)
-
+		if !implementsCached(itf.t, idst) {
+			failed = true
+			if !instr.CommaOk {
+				err = checkInterface(i, idst, itf)
+			}
+		}
 	} else if types.Identical(itf.t, instr.AssertedType) {
 		v = itf.v // extract value
-
 	} else {
-		err = fmt.Sprintf("interface conversion: interface is %s, not %s", itf.t, instr.AssertedType)
+		failed = true
+		if !instr.CommaOk {
+			err = fmt.Sprintf("interface conversion: interface is %s, not %s", itf.t, instr.AssertedType)
+		}
 	}
-	// Note: if instr.Underlying==true ever becomes reachable from interp check that
-	// types.Identical(itf.t.Underlying(), instr.AssertedType)
-
-	if err != "" {
+	if failed {
 		if !instr.CommaOk {
 			panic(err)
 		}
@@ -1514,6 +1521,24 @@ func sliceToArrayPointer(t_dst, t_src types.Type, x value) value {
 // checkInterface checks that the method set of x implements the
 // interface itype.
 // On success it returns "", on failure, an error message.
+type implKey struct {
+	t types.Type
+	i *types.Interface
+}
+
+var implCache sync.Map
+
+// implementsCached memoises types.MissingMethod for (dynamic type, interface) pairs (types are canonical objects).
+func implementsCached(t types.Type, itype *types.Interface) bool {
+	k := implKey{t, itype}
+	if v, ok := implCache.Load(k); ok {
+		return v.(bool)
+	}
+	meth, _ := types.MissingMethod(t, itype, true)
+	implCache.Store(k, meth == nil)
+	return meth == nil
+}
+
 func checkInterface(i *interpreter, itype *types.Interface, x iface) string {
 	if meth, _ := types.MissingMethod(x.t, itype, true); meth != nil {
 		return fmt.Sprintf("interface conversion: %v is not %v: missing method %s",
